@@ -461,6 +461,16 @@ def run(tier, seed):
                          4 if tier == 'quick' else workers, stage='command line')
     rep.required_classes = ['indices_repeats', 'indices_random', 'container_set', 'container_tuple', 'column_becomes_constant',
                             'out_of_range_probe', 'compressed', 'uncompressed', 'corpus', 'cli']
+    def _wrap(case):
+        n = case.nsub
+        if n < 2:
+            return []
+        sels = [[0, n - 1], list(range(n)), [n - 1], list(range(0, n, 2))]
+        if n > 256:
+            sels.append(list(range(256)))
+            sels.append(list(range(1, 257)) + [0, 0])
+        return [SubCase(case, idx, 'list', bad=[n]) for idx in sels]
+    std.run_boundary(rep, tier, check_case, only=['subsets_', 'bitmap_300_bits_compressed'], wrap=_wrap)
     fuzz.run_structured(rep, 'checks.c10', _fuzz_gen, tier)
     return rep.finish()
 
